@@ -17,6 +17,7 @@ pub mod lang;
 pub mod resolve;
 pub mod pipeline;
 pub mod frontend;
+pub mod backend;
 pub mod cbor;
 pub mod ledger;
 
@@ -74,6 +75,7 @@ fn dispatch(case: &Value) -> Value {
         "resolve" => resolve::run(case),
         "pipeline" => pipeline::run(case),
         "frontend" => frontend::run(case),
+        "backend" => backend::run(case),
         "ping" => json!({"pong": true}),
         other => json!({"tool_error": format!("unknown cmd {other}")}),
     }
